@@ -60,6 +60,9 @@ def gen_vector(rng, n, kind, basis_index=0):
         return np.array([rng.uniform(0.001, 1000.0) for _ in range(n)])
     if kind == "ramp":
         return np.array([float(i + 1) for i in range(n)])
+    if kind == "ints":
+        # integer dtype with odd values: halving must not truncate
+        return np.array([2 * rng.randrange(1, 50) + 1 for _ in range(n)], dtype=np.int64)
     raise KeyError(kind)
 
 
@@ -217,7 +220,7 @@ class Run(object):
                 viol = self._check_object(idx)
             elif k == "setpsd":
                 v = dec_array(op["value"])
-                p.psd = v
+                p.psd = v.tolist() if op["value"].get("c") == "list" else v
                 self._rebase(v)
                 self.paths = []
                 viol = self._check_object(idx)
@@ -341,11 +344,12 @@ class Run(object):
     def _op_helpers(self, idx, op):
         sp = sut.load()
         tools = sp.tools
-        v = dec_array(op["value"]).astype(float)
+        raw = dec_array(op["value"])
+        v = raw.astype(float)
         M = len(v)
         T = v.copy()             # canonical two-sided model of the detached vector
         rep = "twosided"
-        cur = v.copy()
+        cur = raw.copy()         # the first helper sees the vector with its own dtype (int or float)
         for j, name in enumerate(op["chain"]):
             self.bump("helper:" + name.split(":")[0])
             inp = cur.copy()
@@ -544,11 +548,14 @@ def gen_op(rng, run):
         return {"op": "read"}
     if r < 0.86:
         n = run.M if cplx else refmodel.n_onesided(run.M)
-        kind = rng.choice(["basis", "distinct", "random", "ramp"])
-        return {"op": "setpsd", "value": enc_array(gen_vector(rng, n, kind, rng.randrange(0, n)))}
+        kind = rng.choice(["basis", "distinct", "random", "ramp", "ints"])
+        d = enc_array(gen_vector(rng, n, kind, rng.randrange(0, n)))
+        if rng.random() < 0.3:
+            d["c"] = "list"
+        return {"op": "setpsd", "value": d}
     if r < 0.95:
         M = rng.choice([1, 2, 3, 4, 5, 6, 7, 8, 9, 15, 16, 17, 32, 33, rng.randrange(1, 65)])
-        kind = rng.choice(["basis", "distinct", "random", "symmetric"])
+        kind = rng.choice(["basis", "distinct", "random", "symmetric", "ints"])
         if kind == "symmetric":
             h = gen_vector(rng, refmodel.n_onesided(M), "random")
             v = refmodel.canonical_from(h, "onesided", M)
@@ -569,7 +576,7 @@ def run_random(seed):
     if rng.random() < 0.6:
         M = rng.choice([1, 2, 3, 4, 5, 6, 7, 8, 9, 15, 16, 17, 31, 32, 33, 63, 64, rng.randrange(1, 65)])
         cplx = rng.random() < 0.5
-        kind = rng.choice(["basis", "distinct", "random", "ramp"])
+        kind = rng.choice(["basis", "distinct", "random", "ramp", "ints"])
         cfg = base_cfg(rng, cplx, M, kind, rng.randrange(0, 64))
     else:
         cfg = est_cfg(rng)
